@@ -8,7 +8,7 @@ from core import ok, bad, unresolved, floor, R, renamed
 from anchors import AnchorError
 from facts import callee_of, op_local, op_place, last_seg, strip_generics
 from reach import reach_specialised, pruned_blocks
-from util import stores_to_field, calls_named
+from util import stores_to_field, calls_named, search_flag_locals
 import c05, c06, c07, c08, c02
 
 # which error kinds each operation must be able to report, and which it must never report (reference semantics of a nested ordered map, README / docs):
@@ -110,13 +110,7 @@ def counter(ctx, rule='C01.counter'):
                 # control-dependent on the exact-match flag of a search, on its NOT-found side
                 flag_locals = set()
                 for cb, ct, cc in [(b2, t2, c2) for b2, t2, c2 in _calls_to(F, fn, sr)]:
-                    d = ct['dest']['l']
-                    for b3 in fn.reachable_blocks():
-                        for s3 in fn.blocks[b3]['stmts']:
-                            if s3['k'] == 'assign' and s3['rv']['k'] == 'use':
-                                pl = op_place(s3['rv']['op'])
-                                if pl is not None and pl['l'] == d and pl['pr'] and pl['pr'][0]['k'] == 'field' and str(pl['pr'][0].get('name')) == '0':
-                                    flag_locals.add(s3['p']['l'])
+                    flag_locals |= search_flag_locals(fn, ct)
                 guarded = False
                 for (a, sx) in fn.control_deps_transitive(bb):
                     at = fn.term(a)
@@ -156,13 +150,7 @@ def _found_arm_successes(ctx, F, g, blocks, sr, mode_params=()):
     du = ctx.du(g)
     flag_locals = set()
     for cb, ct in calls:
-        d = ct['dest']['l']
-        for b3 in g.reachable_blocks():
-            for s3 in g.blocks[b3]['stmts']:
-                if s3['k'] == 'assign' and s3['rv']['k'] == 'use':
-                    pl = op_place(s3['rv']['op'])
-                    if pl is not None and pl['l'] == d and pl['pr'] and pl['pr'][0]['k'] == 'field' and str(pl['pr'][0].get('name')) == '0':
-                        flag_locals.add(s3['p']['l'])
+        flag_locals |= search_flag_locals(g, ct)
     oks = set(c03.ok_return_blocks(g, blocks))
     out = []
     dead = set(g.reachable_blocks()) - set(blocks)
@@ -219,8 +207,20 @@ def create_refuses_existing(ctx, rule='C01.create-refuses-existing'):
             mode_params = sorted({k for pr in prunes.get(g0, []) for k in pr})
             raw = _found_arm_successes(ctx, F, g0, blocks0, sr, mode_params)
             if raw is None:
-                continue
-            verdicts = [('as written', g0, raw)]
+                # the search may sit in a private helper of g0 (`self.locate(key)`): look at g0 with its helpers folded in
+                gx = ctx.x(g0)
+                if gx is g0 or not mode_params or not _calls_to(F, gx, sr):
+                    continue        # (only the function that receives the mode constants is judged: its callers see them as literals, not as parameters)
+                bl = set()
+                for pr in prunes.get(g0, [{}]):
+                    bl |= set(pruned_blocks(gx, pr, F))
+                raw = _found_arm_successes(ctx, F, gx, bl, sr, mode_params)
+                if raw is None:
+                    continue
+                g0v = gx
+            else:
+                g0v = g0
+            verdicts = [('as written', g0v, raw)]
             if any(hit for a, hit in raw):
                 g = ctx.x(g0)
                 blocks = set()
